@@ -16,6 +16,11 @@ Section AnyFunction.
     (forall a v, In a args -> a_in a = Scalar v -> arg_value [] a = v).
   Proof. intros H. split; [exact (scalar_passthrough f args d x H) | intros a v _; apply scalar_broadcast]. Qed.
 
+  (* scalars broadcast: every row receives the scalar WHOLE, whatever its kind - a list / tuple valued scalar
+     (VList) is not spread over the rows, not even when its length equals the number of rows *)
+  Theorem C20_scalars_broadcast_whole k a v : a_in a = Scalar v -> arg_value k a = v.
+  Proof. apply scalar_broadcast. Qed.
+
   (* a key gets a row iff it is present in every table input that has no default (and in some table at all);
      membership of keys is up to cmp-equality (1 ~ 1.0) *)
   Theorem C20_rows_are_common_keys args d x :
@@ -83,6 +88,7 @@ Section AnyFunction.
   Proof. intros AT E. rewrite (empty_result f args d x AT E). reflexivity. Qed.
 End AnyFunction.
 Print Assumptions C20_scalar_passthrough.
+Print Assumptions C20_scalars_broadcast_whole.
 Print Assumptions C20_rows_are_common_keys.
 Print Assumptions C20_sorted_by_key.
 Print Assumptions C20_defaults_extend.
